@@ -52,8 +52,12 @@ def add_arith_ops(p, s, div=True, pow_=True, nary3=False):
             p.op("pow%d" % e, [s], REAL, (lambda e: lambda m, a: m.Pow(a, mk(e)))(e))
 
 
-def lia_profile(env, consts=(-1, 0, 1, 2), big=True, nsyms=2, **kw):
+def lia_profile(env, consts=(-1, 0, 1, 2), big=True, nsyms=2, consts_first=False, **kw):
     p = Profile("lia", env)
+    if consts_first:
+        # node ids follow creation order and the simplifier sorts commutative arguments by node id:
+        # with the constants created before the symbols, constants come first in sorted products
+        [p.m.Int(c) for c in consts]
     p.leaf(INT, *[p.sym(n, INT) for n in ["x", "y", "z"][:nsyms]])
     p.leaf(INT, *[p.m.Int(c) for c in consts])
     if big:
@@ -64,8 +68,10 @@ def lia_profile(env, consts=(-1, 0, 1, 2), big=True, nsyms=2, **kw):
 
 
 def lra_profile(env, consts=(Fraction(-1), Fraction(0), Fraction(1), Fraction(2), Fraction(1, 2)),
-                nsyms=2, **kw):
+                nsyms=2, consts_first=False, **kw):
     p = Profile("lra", env)
+    if consts_first:
+        [p.m.Real(c) for c in consts]       # see lia_profile
     p.leaf(REAL, *[p.sym(n, REAL) for n in ["r", "s", "t"][:nsyms]])
     p.leaf(REAL, *[p.m.Real(c) for c in consts])
     p.leaf(BOOL, p.sym("a", BOOL))
